@@ -66,7 +66,7 @@ CLAIMED = {
             "Bounded model checking: knapsack n<=3 exhaustive over weights 0..3, capacity 0..5 (+sampled n=4, decimal grid) for ALL value vectors; bin packing n<=4, all four heuristics and aliases, ALL sizes/capacities.",
             GEN_NOTE, "DESIGN.md 4/C16"),
     "C17": ("symbolic execution of solve_cg (cutting stock and custom pricing) with the demand vector symbolic (Ints 0..8) and of solve_bp with solver-enumerated demand vectors; true minimum = z3 query for a cheaper non-negative integer combination of the full enumerated pattern set",
-            "Bounded model checking: 14 cutting-stock instances (width<=10, <=3 sizes) for EVERY demand vector in 0..8 (cg) / 0..3 (bp), plus explicit column pools: patterns fit, every demand met, objective = rolls, OPTIMAL = true minimum. Known findings (listed): solve_bp labels non-minimal plans OPTIMAL and can miss a demand.",
+            "Bounded model checking: 14 cutting-stock instances (width<=10, <=3 sizes) for EVERY demand vector in 0..8 (cg) / 0..3 (bp), plus explicit column pools: patterns fit, every demand met, objective = rolls, OPTIMAL = true minimum.",
             GEN_NOTE + " solve_bp demand vectors are enumerated, not symbolic (weaker mode).", "DESIGN.md 4/C17"),
     "C18": ("symbolic execution of solve_job_shop (durations unbounded symbolic Ints, symbolic random stream) and, inductively, of each exported VRPTW destroy/repair operator from every bookkeeping-valid state with symbolic distances/demands/capacities/windows/service times; vrp_objective against the documented weighted sum",
             "Bounded model checking: job shop shapes up to 3x2/2x3: every operation scheduled, end-start = duration, job order, machine exclusivity, objective = latest end, for ALL durations and random choices (depth-first to a path cap). VRPTW: ONE inductive step per operator from EVERY valid state of 3 customers (one 2-vehicle) x 2 vehicles: never lost / never both / never twice on a route, arrival times consistent, input not mutated; objective identity.",
